@@ -602,6 +602,40 @@ fn run_scenario(rep: &mut Report, env: &mut Env, sc: &Scenario) {
         rep.fail("panic", format!("ignore_lint panicked: {m}"), inp);
         return;
     }
+    // ---- the JSON route: both front-ends carry the lint as serde JSON between linting and ignore_lint (harper-ls: the
+    // argument of the HarperIgnoreLint command; harper.js: Lint::to_json / from_json across the worker boundary).  The
+    // lint the user ignores is the one that came back from JSON; re-checking must not report it any more.
+    let mut ig_json = IgnoredLints::new();
+    let mut json_route_ok = true;
+    for i in &chosen {
+        let l = &lints[*i];
+        rep.count(&format!("json_route:core:priority:{}", match l.priority { 127 => "127(default)", 0..=63 => "0-63", _ => "other" }));
+        match serde_json::to_string(l).ok().and_then(|t| serde_json::from_str::<Lint>(&t).ok()) {
+            Some(back) => {
+                if guarded(|| ig_json.ignore_lint(&back, &doc)).is_err() {
+                    json_route_ok = false;
+                    rep.fail("panic", "ignore_lint panicked on a lint that came back from JSON".into(), inp.clone());
+                }
+            }
+            None => {
+                json_route_ok = false;
+                rep.fail("hides_json", format!("lint {:?} {:?} does not survive serde_json (it cannot be ignored through HarperIgnoreLint / harper.js)", l.span, l.message), inp.clone());
+            }
+        }
+    }
+    if json_route_ok {
+        let mut kept_json = lints.clone();
+        if guarded(|| ig_json.remove_ignored(&mut kept_json, &doc)).is_ok() {
+            for i in &chosen {
+                if kept_json.contains(&lints[*i]) {
+                    rep.fail("hides_json", format!("lint {:?} {:?} (priority {}) was ignored after a serde_json round trip (as HarperIgnoreLint / harper.js pass it) and is still reported on the same text", lints[*i].span, lints[*i].message, lints[*i].priority), inp.clone());
+                }
+            }
+            if kept_json != { let mut k = lints.clone(); ig.remove_ignored(&mut k, &doc); k } {
+                rep.fail("hides_json", "the list filled through the JSON route hides other lints than the list filled directly".into(), inp.clone());
+            }
+        }
+    }
     let ignored: Vec<(Lint, Document)> = chosen.iter().map(|i| (lints[*i].clone(), doc.clone())).collect();
     for (k, i) in chosen.iter().enumerate() {
         if k < 3 {
@@ -967,10 +1001,29 @@ fn run_wasm(rep: &mut Report, sc: &Scenario) {
             }
         }
         let mut n_ign = 0;
+        // harper.js's WorkerLinter ships the lint to the worker as JSON (Lint.to_json / Lint.from_json): a second linter is
+        // fed that way, for EVERY chosen lint, and must hide them just as well
+        let mut wj = WL::new(WD::American);
+        let mut json_ok = true;
         for (i, l) in before.into_iter().enumerate() {
             if chosen.contains(&i) {
+                match harper_wasm::Lint::from_json(l.to_json()) {
+                    Ok(back) => wj.ignore_lint(sc.text.clone(), back),
+                    Err(e) => {
+                        json_ok = false;
+                        fails.push(("hides_json", format!("wasm: Lint::from_json(Lint::to_json(lint)) fails: {e}"), Value::Null));
+                    }
+                }
                 w.ignore_lint(sc.text.clone(), l);
                 n_ign += 1;
+            }
+        }
+        if json_ok {
+            let after_j: Vec<Lint> = wj.lint(sc.text.clone(), lang()).iter().filter_map(wasm_inner).collect();
+            for i in &chosen {
+                if after_j.contains(&inner[*i]) {
+                    fails.push(("hides_json", format!("wasm: lint {:?} {:?} (priority {}) ignored after Lint::to_json / Lint::from_json (harper.js's worker route) is still returned by lint()", inner[*i].span, inner[*i].message, inner[*i].priority), Value::Null));
+                }
             }
         }
         let after: Vec<Lint> = w.lint(sc.text.clone(), lang()).iter().filter_map(wasm_inner).collect();
@@ -1100,6 +1153,7 @@ fn run_ls(rep: &mut Report, sc: &Scenario) {
     use lsx::diagnostics::lint_to_code_actions;
     use lsx::document_state::DocumentState;
     use lsx::pos_conv::span_to_range;
+    use lsx::tower_lsp::lsp_types::CodeActionOrCommand;
     rep.eval();
     let mut inp = sc.to_json();
     inp["kind"] = json!("ls");
@@ -1136,14 +1190,25 @@ fn run_ls(rep: &mut Report, sc: &Scenario) {
         }
         let cfg = CodeActionConfig::default();
         let url = st.url.clone();
+        // Backend::execute_command("HarperIgnoreLint"): the lint is the SECOND ARGUMENT of the command that
+        // lint_to_code_actions offered (serde_json::to_value(lint)), read back with serde_json::from_value — that lint is
+        // what DocumentState::ignore_lint receives.  Every chosen lint takes this route.
         for i in &chosen {
-            st.ignore_lint(&lints[*i]);
+            let acts = lint_to_code_actions(&lints[*i], &url, &st.document, &cfg);
+            let arg = acts.iter().find_map(|a| match a {
+                CodeActionOrCommand::Command(c) if c.command == "HarperIgnoreLint" => c.arguments.as_ref().and_then(|v| v.get(1).cloned()),
+                _ => None,
+            });
+            match arg.and_then(|v| serde_json::from_value::<Lint>(v).ok()) {
+                Some(back) => st.ignore_lint(&back),
+                None => fails.push(("hides_json", format!("ls: no HarperIgnoreLint command with a parsable lint is offered for lint {:?}", lints[*i].span))),
+            }
         }
         let hidden = |st: &DocumentState, l: &Lint| st.ignored_lints.is_ignored(l, &st.document);
         let expect: Vec<Lint> = lints.iter().filter(|l| !hidden(&st, l)).cloned().collect();
         for i in &chosen {
             if expect.contains(&lints[*i]) {
-                fails.push(("hides", format!("ls: ignored lint {:?} is not ignored by the DocumentState's list", lints[*i].span)));
+                fails.push(("hides_json", format!("ls: lint {:?} {:?} (priority {}) ignored through the HarperIgnoreLint command (its JSON argument) is not ignored by the DocumentState's list", lints[*i].span, lints[*i].message, lints[*i].priority)));
             }
         }
         let n1 = st.generate_diagnostics(DiagnosticSeverity::Hint).len();
